@@ -1,6 +1,7 @@
 import Gallia.Proofs.Lemmas.DoipOps
 import Gallia.Proofs.Lemmas.DoipSysCalls
 import Gallia.Proofs.Lemmas.DoipSysAlive
+import Gallia.Proofs.Lemmas.DoipSerial
 import Gallia.Gen.C06Doip
 /-
   C06 — DoIP: frames are demultiplexed correctly under any segmentation and interleaving.
@@ -468,6 +469,112 @@ theorem alive_answered_idle (c : Cfg) (s : St) (arr : List (Nat × Bytes)) (hc :
 theorem alive_response_bytes (c : Cfg) :
     aliveResp c = [c.ver, c.ver ^^^ 0xFF, 0x00, 0x08, 0x00, 0x00, 0x00, 0x02] ++ toBE c.src 2 := by
   simp [aliveResp, header, ptAliveRes, toBE]
+
+/-! ### message sizes
+
+  DoIP frames carry a 32-bit payload length: nothing in the framing, the classification or the matching rules of the
+  consumers depends on how long the user data is (the 4095 byte limit of ISO-TP does not exist here). -/
+
+/-- **a diagnostic message of any length is delivered unmodified, a fully / partially echoed acknowledgement of a
+    request of any length is accepted.**  `data`, `req` are arbitrary byte lists; the only bound is the one of the wire
+    format (payload length field of 32 bits).  For every segmentation `chunks` of the stream "foreign frames `pre`,
+    the diagnostic message target -> source with user data `data`, frames `post`, an incomplete tail": the reader
+    queues exactly these frames, a read on that queue delivers `data` itself and leaves `pre ++ post`; and the
+    acknowledgement wait of a request `req` accepts the positive (and the negative) acknowledgement echoing any
+    prefix of `req` - none (`k = 0`), some, all of it. -/
+theorem doip_delivers_any_length (c : Cfg) (v : UInt8) (data req : Bytes) (pre post : List Frame) (tail : Bytes)
+    (hs : c.src < 65536) (ht : c.tgt < 65536) (hlen : data.length + 4 < 4294967296)
+    (hw : ∀ f ∈ pre ++ post, f.wf ∧ f.payload.length < 4294967296) (hpre : ∀ y ∈ pre, isDiagFor c y = false)
+    (htail : cut tail = none) (chunks : List Bytes)
+    (hch : chunks.flatten = ((pre ++ Frame.diag c.tgt c.src data :: post).map (encFrame v)).flatten ++ tail) :
+    (chunks.foldl (feed doipCutter) ([], [])).1.map classify =
+        (pre ++ Frame.diag c.tgt c.src data :: post).map Item.q ∧
+      (chunks.foldl (feed doipCutter) ([], [])).2 = tail ∧
+      takeFront (isDiagFor c) (pre ++ Frame.diag c.tgt c.src data :: post) =
+        some (Frame.diag c.tgt c.src data, pre ++ post) ∧
+      (Frame.diag c.tgt c.src data).userData = data ∧
+      (∀ k code, ackMatch c req (.ackPos c.tgt c.src (req.take k)) = true ∧
+        ackMatch c req (.ackNeg c.tgt c.src code (req.take k)) = true) := by
+  have hall : ∀ f ∈ pre ++ Frame.diag c.tgt c.src data :: post, f.wf ∧ f.payload.length < 4294967296 := by
+    intro f hf
+    simp only [List.mem_append, List.mem_cons] at hf
+    rcases hf with hf | rfl | hf
+    · exact hw f (by simp [hf])
+    · refine ⟨⟨ht, hs⟩, ?_⟩
+      simp [Frame.payload, toBE]; omega
+    · exact hw f (by simp [hf])
+  have hfe := frames_exact v _ tail hall htail
+  rw [frames_any_segmentation, hch]
+  refine ⟨hfe.1, hfe.2, ?_, rfl, ?_⟩
+  · rw [readDiag_delivers]
+    exact ⟨pre, post, rfl, by simp [isDiagFor], hpre, rfl⟩
+  · intro k code
+    have e : req.take k = req.take (req.take k).length := by
+      simp only [List.length_take]
+      by_cases h : k ≤ req.length
+      · rw [Nat.min_eq_left h]
+      · rw [Nat.min_eq_right (by omega), List.take_of_length_le (by omega), List.take_of_length_le (Nat.le_refl _)]
+    constructor <;> · simp only [ackMatch, beq_self_eq_true, Bool.true_and, Bool.or_eq_true, beq_iff_eq]
+                      exact Or.inr e
+
+/-- non-vacuity of `doip_delivers_any_length`: 5000 bytes of user data (beyond 4095) behind a foreign frame, the
+    stream cut inside the first header and again inside the large payload, an incomplete header behind it: the
+    hypotheses hold, so the read delivers the 5000 bytes and the fully echoed acknowledgement of a 5000 byte request
+    is accepted -/
+example :
+    let c : Cfg := ⟨0x0E00, 0x1D, 2⟩
+    let data : Bytes := List.replicate 5000 0x5A
+    let stream := (([Frame.diag 0x1E 0x0E00 [0x7F]] ++ Frame.diag c.tgt c.src data :: []).map (encFrame 2)).flatten ++
+      [2, 0xFD, 0x80]
+    let r := [stream.take 5, (stream.drop 5).take 4100, (stream.drop 5).drop 4100].foldl (feed doipCutter) ([], [])
+    r.1.map classify = [.q (.diag 0x1E 0x0E00 [0x7F]), .q (.diag 0x1D 0x0E00 data)] ∧ r.2 = [2, 0xFD, 0x80] ∧
+      takeFront (isDiagFor c) [.diag 0x1E 0x0E00 [0x7F], .diag 0x1D 0x0E00 data] =
+        some (.diag 0x1D 0x0E00 data, [.diag 0x1E 0x0E00 [0x7F]]) ∧
+      ackMatch c data (.ackPos 0x1D 0x0E00 data) = true := by
+  intro c data stream r
+  have h := doip_delivers_any_length c 2 data data [.diag 0x1E 0x0E00 [0x7F]] [] [2, 0xFD, 0x80]
+    (by decide) (by decide) (by simp only [data, List.length_replicate]; omega) (by simp [Frame.wf, Frame.payload, toBE]) (by simp [isDiagFor, c])
+    (by simp [cut])
+    [stream.take 5, (stream.drop 5).take 4100, (stream.drop 5).drop 4100]
+    (by simp only [List.flatten_cons, List.flatten_nil, List.append_nil, List.take_append_drop]; rfl)
+  refine ⟨h.1, h.2.1, h.2.2.1, ?_⟩
+  have := (h.2.2.2.2 5000 0).1
+  rwa [List.take_of_length_le (by simp only [data, List.length_replicate]; omega)] at this
+
+/-! ### a second client task blocked in a read
+
+  `read_frame` takes the connection mutex for every frame it waits for and `write_request_raw` holds it from the
+  request to the acknowledgement, so the scan of a blocked reader (`isDiagFor`, skipped frames put back in front) and
+  the acknowledgement wait of a writer (`ackMatch`, same) never consume the queue at the same time: they run one
+  after the other, in the order the mutex is granted. -/
+
+/-- **a blocked reader and a writer are serialised, and the order in which the mutex is granted does not matter.**
+    On any queue `q` (frames in wire order): reader scan then acknowledgement wait gives the same message to the read,
+    the same acknowledgement to the write and leaves the same queue as acknowledgement wait then reader scan - the
+    first target->source message of `q`, the first matching acknowledgement of `q`, and `q` without these two in wire
+    order (`readDiag_delivers`); if one of the two finds nothing, so it does in the other order. -/
+theorem doip_blocked_reader_serialised (c : Cfg) (data : Bytes) (q : List Frame) :
+    ((takeFront (isDiagFor c) q).bind fun y => (takeFront (ackMatch c data) y.2).map fun z => (y.1, z.1, z.2)) =
+    ((takeFront (ackMatch c data) q).bind fun z => (takeFront (isDiagFor c) z.2).map fun y => (y.1, z.1, y.2)) := by
+  apply serial_commute
+  intro x hx
+  cases h : ackMatch c data x with
+  | false => rfl
+  | true => rw [ackMatch_not_diag c data x h] at hx; cases hx
+
+/-- non-vacuity, and what the mutex prevents: on the queue "foreign, acknowledgement, response, unsolicited" both
+    serial orders hand the response `62 F1` to the read and the acknowledgement to the write and leave the rest in
+    wire order; a reader scanning WITHOUT the mutex while the writer waits takes the acknowledgement off the queue as
+    a skipped frame (`findSplit` returns it in the skipped prefix), so the writer's scan of what is left finds none -/
+example :
+    let c : Cfg := ⟨0x0E00, 0x1D, 2⟩
+    let q : List Frame := [.diag 0x1E 0x0E00 [0x7F], .ackPos 0x1D 0x0E00 [], .diag 0x1D 0x0E00 [0x62, 0xF1],
+      .diag 0x1D 0x0E00 [0x6A]]
+    ((takeFront (isDiagFor c) q).bind fun y => (takeFront (ackMatch c [0x22, 0xF1]) y.2).map fun z => (y.1, z.1, z.2)) =
+      some (.diag 0x1D 0x0E00 [0x62, 0xF1], .ackPos 0x1D 0x0E00 [], [.diag 0x1E 0x0E00 [0x7F], .diag 0x1D 0x0E00 [0x6A]]) ∧
+    (findSplit (isDiagFor c) q).map (·.1) = some [.diag 0x1E 0x0E00 [0x7F], .ackPos 0x1D 0x0E00 []] ∧
+    ((findSplit (isDiagFor c) q).bind fun s => takeFront (ackMatch c [0x22, 0xF1]) s.2.2) = none := by
+  decide +kernel
 
 /-! ### whole executions of one connection (`Model/DoipSys.lean`)
 
